@@ -15,6 +15,8 @@ _ODLINE = re.compile(r'^\s*([0-9a-f]+):\t(.*)$')
 def objdump_batch(cases, syntax='intel', raw=False):
     """cases: list of byte strings (<= 15 bytes).  Each is laid out in a 32-byte slot padded with 0x90.
     returns list of (length, text) for the instruction at the start of each slot (text None if unparsable)"""
+    if not cases:
+        return []
     d = core.scratch()
     fd, path = tempfile.mkstemp(prefix='od-', suffix='.bin', dir=d)
     with os.fdopen(fd, 'wb') as f:
@@ -464,6 +466,8 @@ def has_superfluous_prefix(nf_od, meta_pfx, od_text):
 
 def gas_batch(lines, syntax='intel'):
     """assemble each line separately (one label per line); returns list of bytes or None (rejected)"""
+    if not lines:
+        return []
     d = core.scratch()
     fd, src = tempfile.mkstemp(prefix='gas-', suffix='.s', dir=d)
     obj = src[:-2] + '.o'
@@ -493,7 +497,11 @@ def gas_batch(lines, syntax='intel'):
                     if 0 <= idx < len(lines):
                         new.add(idx)
             if not new:
-                core.harness_error('as failed without per-line errors: %s' % r.stderr.decode()[-400:])
+                # errors that gas reports by address only (fix-ups): bisect
+                if len(lines) == 1:
+                    return [None]
+                h = len(lines) // 2
+                return gas_batch(lines[:h], syntax) + gas_batch(lines[h:], syntax)
             rejected |= new
         else:
             core.harness_error('as: error set did not converge')
